@@ -256,6 +256,9 @@ tok!(c16_tok_ctx_plaintext_s3, b"", 3, "plaintext", 3, 13);
 tok!(c16_tok_ctx_plaintext_s4, b"x", 4, "plaintext", 5, 13);
 tok!(c16_tok_text_s3_after_comment, b"<!---->", 2, "", 9, 11);
 
+// CDATA with two brackets seen and a 2-byte character in progress (added after seed C16-m5 arrived)
+tok!(c16_tok_cdata_br_utf8_s3, b"<![CDATA[]]\xc3", 3, "", 15, 17);
+
 // single symbolic byte in the states whose 2-byte exploration runs past 25 min
 tok!(c16_tok_lt_s1, b"<", 1, "", 2, 4);
 tok!(c16_tok_tag_s1, b"<a", 1, "", 3, 5);
